@@ -13,6 +13,7 @@
 # See the License for the specific language governing permissions and
 # limitations under the License.
 import asyncio
+import copy
 import inspect
 import logging
 import re
@@ -737,7 +738,10 @@ def create_flow_configs_from_flow_list(flows: List[Flow]) -> Dict[str, FlowConfi
 
         config = FlowConfig(
             id=flow.name,
-            elements=flow.elements,
+            # The expansion of the elements changes some of them in place (e.g. the labels
+            # of break/continue). We work on a copy, such that the parsed flows of a
+            # config can be used for more than one runtime.
+            elements=copy.deepcopy(flow.elements),
             decorators=convert_decorator_list_to_dictionary(flow.decorators),
             parameters=flow.parameters,
             return_members=flow.return_members,
